@@ -108,6 +108,7 @@ UNIT_DRIVERS = {
     "pipeline_failure": ["commit::fault_enum"],
     "restore_protocol": ["levels::checkpoint_enum_quick"],
     "dir_lock": ["exclusive_enum_quick"],
+    "open_lock": ["exclusive_enum_quick"],
     "wal_sticky": ["wal::log_enum_quick"],
     "compaction_inputs": ["snapshot::reads_enum_quick"],
     "flush_protocol": ["wal::crash_enum_quick", "snapshot::timetravel_enum_quick"],
